@@ -249,13 +249,18 @@ class NetCDFWrite(IOWrite):
         if not netcdf_attrs:
             return {}
 
+        # The data of the parent construct. A domain construct has no
+        # data.
+        data = None
+        if parent is not None and not self.implementation.is_domain(parent):
+            data = self.implementation.get_data(parent, None)
+
         # Make sure that _FillValue and missing data have the same
         # data type as the data
         for attr in ("_FillValue", "missing_value"):
             if attr not in netcdf_attrs:
                 continue
 
-            data = self.implementation.get_data(parent, None)
             if data is not None:
                 dtype = g["datatype"].get(data.dtype, data.dtype)
                 netcdf_attrs[attr] = np.array(netcdf_attrs[attr], dtype=dtype)
@@ -270,7 +275,6 @@ class NetCDFWrite(IOWrite):
 
         if g["post_dry_run"] and parent is not None:
             # Manage possibly pre-existing fill values:
-            data = self.implementation.get_data(parent, None)
             if data is not None:
                 # Check if there is already a fill value applied to the data,
                 # and if so, that it is compatible with the one set to be set:
